@@ -1,5 +1,5 @@
 """Symbolic executor: real function ASTs of /repo against sidecar contracts -> named obligations (DESIGN 2.1-2.5)."""
-import ast
+import ast, re
 import copy
 import itertools
 import z3
@@ -970,7 +970,12 @@ class Exec:
                         if b.kind == 'continue': b = Outcome('normal', b.state)
                         nxt.append(b)
                 outs = nxt
-            return [Outcome('normal', o.state) if o.kind == 'break' else o for o in outs]
+            fin = []
+            for o in outs:
+                if o.kind == 'break': fin.append(Outcome('normal', o.state))
+                elif o.kind == 'normal' and s.orelse: fin += self.block(s.orelse, o.state)      # for ... else: runs when the loop was not left by break
+                else: fin.append(o)
+            return fin
         self.ctx.iter_raises = []
         if isinstance(it, VRef) and (self.find_method(it.cls, '__iter__@for') or self.find_method(it.cls, '__iter__')):
             c = CONTRACTS[self.find_method(it.cls, '__iter__@for') or self.find_method(it.cls, '__iter__')]
@@ -1455,6 +1460,10 @@ def verify(contract, unroll=0, shard=(0, 1)):
         v = mk_sym(n, c.params[n]); st.env[n] = v; st.pc += wf(v)
         alloc_bound(st, v)
     for r in c.requires: st.assume(ex.spec_eval(r.text, st, st.env))
+    # a precondition of the form  <param> == "literal"  binds the parameter to that constant (so that codec names, modes etc. are static)
+    for r in c.requires:
+        m_ = re.fullmatch(r'\s*(\w+)\s*==\s*"([^"\\]*)"\s*', r.text)
+        if m_ and m_.group(1) in st.env and isinstance(st.env[m_.group(1)], VStr): st.env[m_.group(1)] = VStr(z3.StringVal(m_.group(2)), st.env[m_.group(1)].ty)
     for inv in c.invariant: st.assume(ex.spec_eval(inv.text, st, st.env))
     ctx.old = st.fork()
     ctx.entry = st.fork()
